@@ -263,13 +263,13 @@ Proof. intros [tr H]. eapply inv_run; eauto using inv_init. Qed.
 Lemma sockclose_only_when_no_exchange s c s' :
   step s (Conn c SockClose) = Some s' ->
   exists cn, nth_error (conns s) c = Some cn /\
-    (ph cn = Written \/ ph cn = Broken \/
+    (ph cn = Written \/ ph cn = Broken \/ ph cn = Tunnel \/
      (closing s = true /\ (ph cn = Registered \/ ph cn = Idle \/ ph cn = HeadPartial))).
 Proof.
   intros H. apply step_conn_inv in H as (cn & p' & Hn & Hc & _).
   exists cn. split; auto.
   destruct (ph cn); simpl in Hc; try discriminate; auto;
-    destruct (closing s); try discriminate; auto 6.
+    destruct (closing s); try discriminate; auto 8.
 Qed.
 
 (* line 525: a response decided while closing is visible is marked *)
@@ -290,7 +290,8 @@ Lemma written_only_closes s c cn k s' :
 Proof.
   intros Hn Hp H. apply step_conn_inv in H as (cn' & p' & Hn' & Hc & _).
   rewrite Hn in Hn'. inversion Hn'; subst. rewrite Hp in Hc.
-  destruct k; simpl in Hc; try discriminate; auto.
+  destruct k; repeat match goal with b : bool |- _ => destruct b end;
+    simpl in Hc; try discriminate; auto.
 Qed.
 
 Lemma quiet_no_reqmod s c cn :
@@ -403,13 +404,16 @@ Proof.
   - destruct (Hstep ResModEnd PreDecide eq_refl) as [s' Hs']. exists ResModEnd, s'. auto.
   - destruct (Hstep Decide (Decided true) eq_refl) as [s' Hs']. exists Decide, s'. auto.
   - assert (cstep true (locked_of (cs s)) (Decided m) (WriteHead m) = Some (Writing m)) as E
-      by (simpl; rewrite Bool.eqb_reflx; reflexivity).
+      by (destruct m; reflexivity).
     destruct (Hstep _ _ E) as [s' Hs']. exists (WriteHead m), s'. auto.
   - destruct (Hstep WriteDone (if m then Written else Idle) eq_refl) as [s' Hs'].
     exists WriteDone, s'. auto.
   - destruct (Hstep SockClose SockClosed eq_refl) as [s' Hs']. exists SockClose, s'. auto.
   - destruct (Hstep Done Finished eq_refl) as [s' Hs']. exists Done, s'. auto.
   - congruence.
+  - destruct (Hstep SockClose SockClosed eq_refl) as [s' Hs']. exists SockClose, s'. auto.
+  - destruct (Hstep (WriteHead false) CWriting eq_refl) as [s' Hs']. exists (WriteHead false), s'. auto.
+  - destruct (Hstep WriteDone Tunnel eq_refl) as [s' Hs']. exists WriteDone, s'. auto.
   - destruct (Hstep SockClose SockClosed eq_refl) as [s' Hs']. exists SockClose, s'. auto.
 Qed.
 
